@@ -230,16 +230,16 @@ TOOLS = {
              ("scalar", lambda rs: cont(call=[T.mean(data()["X"], epsilon=1.0, bounds=(0.0, 1.0), random_state=rs,
                                                      accountant=acc()) for _ in range(3)]))],
     "nanmean": [("axis0", _tool("nanmean")),
-                ("big:1024-columns", lambda rs: cont(cell=T.nanmean(_wide(), epsilon=1.0, bounds=(0.0, 1.0), axis=0,
+                ("big:1024-columns", lambda rs: cont(cell=T.nanmean(_wide(), epsilon=500.0, bounds=(0.0, 1.0), axis=0,
                                                                     random_state=rs, accountant=acc())[::8]))],
     "var": [("axis0", _tool("var")),
-            ("big:1024-columns", lambda rs: cont(cell=T.var(_wide(), epsilon=1.0, bounds=(0.0, 1.0), axis=0, random_state=rs,
-                                                            accountant=acc())[::8]))],
+            ("big:256-columns", lambda rs: cont(cell=T.var(_wide()[:, :256], epsilon=200.0, bounds=(0.0, 1.0), axis=0,
+                                                            random_state=rs, accountant=acc())[::4]))],
     "nanvar": [("axis0", _tool("nanvar"))],
     "std": [("axis0", _tool("std"))],
     "nanstd": [("axis0", _tool("nanstd"))],
     "sum": [("axis0", _tool("sum")),
-            ("big:1024-columns", lambda rs: cont(cell=T.sum(_wide(), epsilon=1.0, bounds=(0.0, 1.0), axis=0, random_state=rs,
+            ("big:1024-columns", lambda rs: cont(cell=T.sum(_wide(), epsilon=200.0, bounds=(0.0, 1.0), axis=0, random_state=rs,
                                                             accountant=acc())[::8])),
             ("int", lambda rs: repeat_cells(lambda: T.sum(data()["Xi"][:, :6], epsilon=0.5, bounds=(0, 10), axis=0, dtype=int,
                                                           random_state=rs, accountant=acc()), 10))],
@@ -934,7 +934,7 @@ def blackbox(ctx):
     saved = np.random.get_state(), random.getstate()
     try:
         for (entry, variant, runner, group) in all_entries():
-            for s in seeds:
+            for s in (seeds[:2] if variant.startswith("big:") else seeds):
                 fails, n, crash = blackbox_one(entry, variant, runner, group, s)
                 ctx.case(("bb", entry, variant, s) if n else None)
                 data = {"kind": "blackbox", "entry": entry, "variant": variant, "global_seed": s}
